@@ -271,6 +271,12 @@ paths:
 		{"/a%2Fb", "/a%2fb", "/%61%2Fb", "/a%2F%62"},
 		{"/tilde~/x", "/tilde%7E/x", "/tilde%7e/x", "/tilde~/%78"},
 		{"/plain/x", "/plain/%78", "/%70lain/x", "/plain/X"},
+		// a literal plus sign in an argument, next to escapes that survive and escapes that do not
+		{"/plain/a+b", "/plain/%61+b", "/pl%61in/a+b", "/plain/a+%62"},
+		{"/plain/C++%20guide", "/plain/%43++%20guide", "/pl%61in/C++%20guide", "/plain/C++%20gu%69de"},
+		{"/plain/1+1=2%3F", "/plain/1+1=2%3f", "/plain/%31+1=2%3F"},
+		{"/plain/a%2Bb", "/plain/a%2bb", "/plain/%61%2Bb"},
+		{"/caf%C3%A9/a+b", "/caf%c3%a9/a+b", "/caf%C3%A9/%61+b"},
 		// a template written with the raw character: its only legal spelling on the wire is escaped
 		{"/%C3%BC/v", "/%c3%bc/v", "/%C3%BC/%76", "/%c3%BC/v"},
 	}
@@ -309,7 +315,8 @@ paths:
 				if a.Target == "" || b.Target == "" {
 					return fmt.Errorf("%w: served driver gave no line for %q / %q", tlc.ErrInfra, g[i], g[j])
 				}
-				lb, _ := json.Marshal(map[string]any{"a": toInts(g[i]), "b": toInts(g[j]), "oa": a.Outcome, "ob": b.Outcome, "rawA": a.RawEmpty, "rawB": b.RawEmpty})
+				lb, _ := json.Marshal(map[string]any{"a": toInts(g[i]), "b": toInts(g[j]), "oa": a.Outcome, "ob": b.Outcome, "rawA": a.RawEmpty, "rawB": b.RawEmpty,
+					"reachedA": strings.HasPrefix(a.Outcome, "reached "), "reachedB": strings.HasPrefix(b.Outcome, "reached ")})
 				lines = append(lines, lb)
 				desc = append(desc, fmt.Sprintf("GET %s -> %s; GET %s -> %s", g[i], a.Outcome, g[j], b.Outcome))
 				r.Nontrivial("served|" + classWord(g[i]) + "|" + classWord(g[j]))
